@@ -6,11 +6,11 @@
    specified contents (C14).                                                   *)
 EXTENDS ActorCore, Json, IOUtils
 
-CONSTANT Prop   \* "C14": every reply; "C07": only what depends on the capability (write attempts, capability kinds)
+CONSTANT Prop   \* "C14": every reply; "C07": only what depends on the capability; "C12": only subscriber event streams
 
 Rec == ndJsonDeserialize(IOEnv.TRACE)
-VARIABLES l, st
-vars == <<l, st>>
+VARIABLES l, st, pend   \* pend[sid]: events subscriber sid must have received since the last drain
+vars == <<l, st, pend>>
 
 StartWith(caps) == [docs |-> [d \in 1..Len(caps) |-> [cap |-> caps[d], recs |-> {}]], open |-> <<>>, authors |-> {1, 2}]
 Start == StartWith(<<"write", "write">>)
@@ -23,6 +23,22 @@ ValOk(q, R) ==
 \* consumed a handle (the property is silent)
 Succ(q, R) == IF q.op = "Drop" /\ R.res # "ok" THEN {R.st, st} ELSE {R.st}
 
+\* ---- subscriber events through the actor (C12) ----
+Writes == {"InsertLocal", "DeletePrefix", "InsertRemote"}
+EvOf(q) == IF q.op = "InsertRemote"
+           THEN [o |-> "remote", e |-> q.e, from |-> 1, cs |-> 2, dl |-> TRUE]     \* default policy: download everything
+           ELSE [o |-> "local", e |-> q.e, from |-> 0, cs |-> 0, dl |-> FALSE]
+Subs(q) == IF IsOpen(st, q.d) THEN st.open[q.d].subs ELSE {}
+Known(sids) == [s \in (DOMAIN pend) \cup sids |-> IF s \in DOMAIN pend THEN pend[s] ELSE <<>>]
+NextPend(q, R) ==
+  LET p0 == Known(IF q.op \in {"Open", "Subscribe", "Unsubscribe"} THEN {q.sid} ELSE {}) IN
+  IF q.op \in Writes /\ R.res = "ok"
+  THEN [s \in DOMAIN p0 |-> IF s \in Subs(q) THEN Append(p0[s], EvOf(q)) ELSE p0[s]]
+  ELSE p0
+DrainOk(r) ==
+  \A i \in 1..Len(r.evs) :
+     r.evs[i].events = (IF r.evs[i].sid \in DOMAIN pend THEN pend[r.evs[i].sid] ELSE <<>>)
+
 ReqStep(q) ==
   LET R == ActorStep(st, q) IN
   /\ Prop = "C14" => /\ (q.res = "ok") = (R.res = "ok")
@@ -32,18 +48,20 @@ ReqStep(q) ==
         /\ q.res \in {"ok", "ReadOnly", "NewerEntryExists"})
        => (q.res = "ReadOnly") = (R.res = "ReadOnly")
   /\ st' \in Succ(q, R)
+  /\ pend' = NextPend(q, R)
 
 ShutdownOk(r) ==
   /\ r.res = "ok"
   /\ \A d \in 1..Len(r.docs) : r.docs[d].cap = st.docs[d].cap /\ (Prop = "C14" => ToSet(r.docs[d].st) = st.docs[d].recs)
 
-Init == l = 1 /\ st = Start
+Init == l = 1 /\ st = Start /\ pend = <<>>
 Step ==
   /\ l <= Len(Rec)
   /\ LET r == Rec[l] IN
-       CASE r.ev = "Reset" -> st' = StartWith(r.caps)
+       CASE r.ev = "Reset" -> st' = StartWith(r.caps) /\ pend' = <<>>
          [] r.ev = "Req" -> ReqStep(r)
-         [] r.ev = "Shutdown" -> ShutdownOk(r) /\ st' = st
+         [] r.ev = "Drain" -> (Prop \in {"C12", "C14"} => DrainOk(r)) /\ st' = st /\ pend' = [s \in DOMAIN pend |-> <<>>]
+         [] r.ev = "Shutdown" -> (Prop # "C12" => ShutdownOk(r)) /\ st' = st /\ pend' = pend
          [] OTHER -> FALSE
   /\ l' = l + 1
 Spec == Init /\ [][Step]_vars
